@@ -371,7 +371,7 @@ def check_export_leaf(node, copy):
 
 def plan(tier):
     if tier == "quick":
-        return [{"name": "copy%d" % i, "n": 70, "depth": 3} for i in range(16)]
+        return [{"name": "copy%d" % i, "n": 200, "depth": 3} for i in range(16)]
     return [{"name": "copy%d" % i, "n": 2500, "depth": 4} for i in range(16)]
 
 
